@@ -64,6 +64,8 @@ func init() {
 		c.ruleLangEq("@testonly")
 		c.ruleAttach("@testonly")
 		c.ruleReportGate("testonly")
+		// a method annotation is indexed under the defined type of its receiver (what call sites look up)
+		c.only([]string{"RECEIVER-BY-TYPE"}, func() { c.ruleNoSyntacticType() })
 	}, Explanation: "Every TONL report site: membership in the type/func/method index (+) with resolved-object provenance (direct calls resolved through TypesInfo.Uses to a package-level *types.Func), not in a _test.go file (-), ignore gate on the violation's own code and position before the per-file dedup (-), dedup keyed by package path and type name and created per file; dispatch per call path (CompositeLit; ValueSpec, Field; CallExpr forms). The only prune is below a FuncDecl whose own kind-specific index lookup matches (predicate summary). Index builders filter on the Kind discriminant."})
 
 	registerProp(&propDef{ID: "C04", Rules: func(c *Ctx) {
@@ -81,6 +83,7 @@ func init() {
 		c.ruleAttach("@packageonly")
 		c.rulePost("@packageonly")
 		c.ruleReportGate("packageonly")
+		c.only([]string{"RECEIVER-BY-TYPE"}, func() { c.ruleNoSyntacticType() })
 	}, Explanation: "Every PKGO report site: annotated (+), other package than the declaring one, NOT allowed by path AND NOT allowed by name (both queries on the same item key, last argument pass.Pkg.Path() resp. pass.Pkg.Name()), ignore gate with the site's own code constant and position, PKGO01 dedup keyed by path+name after the gate; per call path: SelectorExpr and Ident references resolved with ObjectOf to TypeName / Func with/without receiver. Union of all allow lists: builder adds every element of every annotation's AllowedPackages; container write-back on every path; declaring package always in the list; no pruning of selector operands."})
 
 	registerProp(&propDef{ID: "C06", Rules: func(c *Ctx) {
